@@ -7,12 +7,17 @@
   match.go, taskclass/port/range.go and the OFFERS handler of scheduler.go, and is
   tied to /repo by the correspondence run (harness/props/c05).
 
-  Two functions exist in two behaviours (as coded at the pin / with the proposed
-  fix patches notes/C05.fix-*.patch): `satisfyAsCoded` vs `satisfy`, and
+  Two functions exist in two behaviours (as coded at the pin / with the fix
+  patches notes/C05.fix-satisfy|ranges.patch): `satisfyAsCoded` vs `satisfy`, and
   `parseRanges false` vs `parseRanges true`; a `Mode` says which one the round
-  uses. Clauses that the code violates are kept visible as `def …_full : Prop`,
-  refuted on a witness (`C05_finding_*`), and proved under the excluded
-  hypothesis (`…_partial`).
+  uses (probed from the linked code). The resource bookkeeping of
+  makeTaskForMesosResources is a `Cfg` inside the `Mode`: `codeCfg` = the code as
+  it is (notes/C05.fix-3/4/5.patch: emptiness test in front of `Min()`, static
+  ranges claimed before the draws, cpus and mem subtracted), `legacyCfg` = the
+  code as it was; `C05_bookkeeping_is_code` ties `codeCfg` to the source.
+  Full-strength clauses are `def …_full (k : Cfg) : Prop`: proved for `codeCfg`
+  (`…_code`), refuted for `legacyCfg` on a witness (`C05_finding_*`), and proved
+  for every configuration under the excluded hypothesis (`…_partial`).
 -/
 import ControlModel.Gen.PlacementFacts
 import ControlModel.Proofs.Placement
@@ -25,6 +30,17 @@ open Placement
     (re-read from the source on every run): data ports above 8999, control
     ports above 29999. -/
 theorem C05_port_floors_are_code : [dataBelow, ctrlBelow] = Gen.Placement.removeEnds := by decide
+
+/-- The bookkeeping configuration of the model is what makeTaskForMesosResources
+    does (go/ast facts re-read from scheduler.go on every run): BOTH `X.Min()` calls
+    stand behind an `if len(X) == 0 { …; return nil, nil }`; the static ranges
+    are subtracted from `remainingResourcesInOffer` before the first draw; cpus
+    and mem of the request are subtracted from it as soon as they are in the
+    request. Reverting any of the three repairs makes this false. -/
+theorem C05_bookkeeping_is_code :
+    Gen.Placement.minGuards = [codeCfg.drawChecked, codeCfg.drawChecked] ∧
+    Gen.Placement.staticClaimedFirst = codeCfg.staticReserved ∧
+    Gen.Placement.scalarsSubtracted = codeCfg.scalarsSubtracted := by decide
 
 /-! ## constraints -/
 
@@ -119,38 +135,60 @@ theorem C05_static_asCoded_partial (rs : Ranges) (hyp : ∀ x ∈ rs, x.1 = x.2)
 
 /-! ## ports drawn for one task -/
 
-/-- makeTaskForMesosResources: the dynamic ports (one per inbound TCP channel,
-    ≥ 9000) and the control port (≥ 30000) come from the ports it was given, are
-    pairwise distinct, and are exactly what is missing afterwards. -/
-theorem C05_ports_from_offer_distinct (w : Wants) (ports : Option Ranges) (hv : OValid ports = true)
-    (t : Task) (rest : Option Ranges) (h : makeTask w ports = .ok t rest) :
+/-- makeTaskForMesosResources (any bookkeeping configuration): the dynamic ports
+    (one per inbound TCP channel, ≥ 9000) and the control port (≥ 30000) come from
+    the ports it was given, are pairwise distinct, and what is missing afterwards
+    is exactly what the task claimed: the drawn ports and — when the static ranges
+    are claimed first, as the code does — the static ports, none of which was drawn. -/
+theorem C05_ports_from_offer_distinct (k : Cfg) (w : Wants) (ports : Option Ranges)
+    (hvs : Valid w.static = true) (hv : OValid ports = true)
+    (t : Task) (rest : Option Ranges) (h : makeTask k w ports = .ok t rest) :
     (∀ p ∈ t.drawn, omem p ports = true) ∧ t.drawn.Nodup ∧
     (∀ p ∈ t.dyn, 9000 ≤ p) ∧ 30000 ≤ t.ctrl ∧ t.dyn.length = tcpCount w.inbound ∧
-    (∀ q, omem q rest = (omem q ports && !(t.drawn.contains q))) := by
-  obtain ⟨k1, k2, k3, k4, k5, _, _, _, _, k10⟩ := makeTask_spec w ports hv t rest h
-  exact ⟨k1, k2, k3, k4, k5, k10⟩
+    (∀ q, omem q rest = (omem q ports && !(t.drawn.contains q) && !(k.staticReserved && mem q w.static))) ∧
+    (k.staticReserved = true → ∀ p ∈ t.drawn, mem p w.static = false) := by
+  obtain ⟨k1, k2, k3, k4, k5, _, _, _, _, k10, k11⟩ := makeTask_spec k w ports hvs hv t rest h
+  exact ⟨k1, k2, k3, k4, k5, k10, k11⟩
 
-/-- FULL-STRENGTH: a port draw never finds the list empty — FALSE (Resources.Satisfy
-    counts ports but not where they lie). -/
-def C05_port_draw_full : Prop :=
+/-- FULL-STRENGTH: a port draw never finds the list empty (Resources.Satisfy
+    counts ports but not where they lie, so makeTaskForMesosResources must look). -/
+def C05_port_draw_full (k : Cfg) : Prop :=
   ∀ (r : Res) (w : Wants), OValid r.ports = true → resSatisfy r w = true →
-    (makeTask w r.ports).isPanic = false
+    (makeTask k w r.ports).isPanic = false
 
-/-- Finding `port_draw_panics`: ports 9000-9003, one TCP channel: accepted, then
-    `Ranges.Min()` of an empty list for the control port. -/
-theorem C05_finding_port_draw_panics : ¬ C05_port_draw_full := by
+/-- The code as it is never indexes an empty list: whatever the offer holds and
+    whatever the template asks for (even without the preceding Satisfy). -/
+theorem C05_port_draw_code : C05_port_draw_full codeCfg :=
+  fun r w _ _ => makeTask_no_panic codeCfg rfl w r.ports
+
+/-- Finding `port_draw_panics` (the code as it WAS): ports 9000-9003, one TCP
+    channel: accepted, then `Ranges.Min()` of an empty list for the control port. -/
+theorem C05_finding_port_draw_panics : ¬ C05_port_draw_full legacyCfg := by
   intro h
   have := h { cpu := some 4, mem := some 4, ports := some [(9000, 9003)] }
     { cpu := 1, mem := 0, static := [], inbound := [true] } (by decide) (by decide)
   revert this
   decide
 
-/-- No panic for a task without inbound TCP channels on resources that still hold a port above 29999. -/
-theorem C05_port_draw_partial (w : Wants) (ports : Option Ranges) (hv : OValid ports = true)
+/-- The emptiness tests are what it takes: a configuration without them panics on that witness. -/
+theorem C05_port_draw_needs_check (k : Cfg) (hk : k.drawChecked = false) : ¬ C05_port_draw_full k := by
+  intro h
+  have := h { cpu := some 4, mem := some 4, ports := some [(9000, 9003)] }
+    { cpu := 1, mem := 0, static := [], inbound := [true] } (by decide) (by decide)
+  revert this
+  obtain ⟨a, b, c⟩ := k
+  simp only at hk
+  subst hk
+  cases b <;> cases c <;> decide
+
+/-- Without the static claim (as the code was): no panic for a task without inbound
+    TCP channels on resources that still hold a port above 29999. -/
+theorem C05_port_draw_partial (k : Cfg) (hk : k.staticReserved = false)
+    (w : Wants) (ports : Option Ranges) (hv : OValid ports = true)
     (hyp1 : tcpCount w.inbound = 0) (hyp2 : ∃ q, ctrlBelow < q ∧ omem q ports = true) :
-    (makeTask w ports).isPanic = false := by
-  have hd : drawDyn w.inbound ports = .ok [] ports := by
-    have : ∀ l : List Bool, tcpCount l = 0 → drawDyn l ports = .ok [] ports := by
+    (makeTask k w ports).isPanic = false := by
+  have hd : drawDyn k.drawChecked w.inbound ports = .ok [] ports := by
+    have : ∀ l : List Bool, tcpCount l = 0 → drawDyn k.drawChecked l ports = .ok [] ports := by
       intro l
       induction l with
       | nil => intro _; rfl
@@ -159,7 +197,7 @@ theorem C05_port_draw_partial (w : Wants) (ports : Option Ranges) (hv : OValid p
         | false => intro h; rw [tcpCount_cons_false] at h; simp only [drawDyn]; exact ih h
         | true => intro h; rw [tcpCount_cons_true] at h; omega
     exact this _ hyp1
-  simp only [makeTask, hd]
+  simp only [makeTask, hk, Bool.false_eq_true, if_false, makeDraws, hd]
   cases ports with
   | none => simp [drawPort, Made.isPanic]
   | some ps =>
@@ -170,6 +208,7 @@ theorem C05_port_draw_partial (w : Wants) (ports : Option Ranges) (hv : OValid p
     simp only [drawPort]
     cases hrem : remove (normalize ps) (0, ctrlBelow) with
     | nil =>
+      exfalso
       have := hmr q
       rw [hrem, hmN] at this
       simp only [omem] at hq2
@@ -179,6 +218,13 @@ theorem C05_port_draw_partial (w : Wants) (ports : Option Ranges) (hv : OValid p
       rw [hnot] at this
       simp [mem] at this
     | cons r tl => simp [Made.isPanic]
+
+/-- One whole round on the code as it is cannot crash: no offer goroutine indexes
+    an empty list, whatever the offers, descriptors and lock order. -/
+theorem C05_round_never_crashes_code (m : Mode) (hm : m.cfg = codeCfg)
+    (offers : List Offer) (descs : List Desc) (order : List Offer) :
+    (round m offers descs order).crashed = false :=
+  round_no_crash m (by rw [hm]; rfl) offers descs order
 
 /-! ## one OFFERS round
 
@@ -197,7 +243,7 @@ theorem C05_round_launched_where_allowed (m : Mode) (offers : List Offer) (descs
           l.task.cpu = c.cpu ∧ l.task.mem = c.mem ∧ l.task.static = (c.wants m).static := by
   rw [validInputs_iff] at hv
   intro a ha
-  obtain ⟨o, ho, hoid, hg, _, _⟩ := round_accepts m offers descs order hv.1 hv.2 a ha
+  obtain ⟨o, ho, hoid, hg, _⟩ := round_accepts m offers descs order hv.1 hv.2 a ha
   refine ⟨o, ho, hoid, ?_⟩
   intro l hl
   obtain ⟨g1, c, g2, _, g3, g4, g5, g6, _⟩ := hg l hl
@@ -241,7 +287,7 @@ theorem C05_round_ports_from_offer_distinct (m : Mode) (offers : List Offer) (de
         ∃ c, l.desc.cls = some c ∧ l.task.dyn.length = tcpCount c.inbound := by
   rw [validInputs_iff] at hv
   intro a ha
-  obtain ⟨o, ho, hoid, hg, hnd, hfrom⟩ := round_accepts m offers descs order hv.1 hv.2 a ha
+  obtain ⟨o, ho, hoid, hg, hnd, hfrom, _⟩ := round_accepts m offers descs order hv.1 hv.2 a ha
   refine ⟨o, ho, hoid, hnd, hfrom, ?_⟩
   intro l hl
   obtain ⟨_, c, g2, _, _, _, _, _, g7, g8, g9⟩ := hg l hl
@@ -260,12 +306,54 @@ theorem C05_round_unused_declined (m : Mode) (offers : List Offer) (descs : List
 
 /-! ### what the code does not guarantee -/
 
-/-- FULL-STRENGTH: what is requested on one offer stays within it — FALSE:
-    CPU and memory are never subtracted from what remains of an offer. -/
-def C05_sum_within_offer_full : Prop :=
-  ∀ (m : Mode) (offers : List Offer) (descs : List Desc) (order : List Offer), validInputs m descs order = true →
+/-- FULL-STRENGTH: what is requested on one offer stays within it (CPU and
+    memory of every task launched on an offer must be taken out of what remains
+    of it before the next descriptor is matched against it). -/
+def C05_sum_within_offer_full (k : Cfg) : Prop :=
+  ∀ (m : Mode), m.cfg = k →
+    ∀ (offers : List Offer) (descs : List Desc) (order : List Offer), validInputs m descs order = true →
     ∀ a ∈ (round m offers descs order).accepts, ∃ o ∈ order, a.oid = o.oid ∧
       sumOk o.res (a.launches.map (·.task)) = true
+
+/-- Whenever the scalars are subtracted, the sum stays within the offer: all
+    offers, descriptors, lock orders, and whatever the other switches say. -/
+theorem C05_sum_within_offer_when_subtracted (m : Mode) (hk : m.cfg.scalarsSubtracted = true)
+    (offers : List Offer) (descs : List Desc) (order : List Offer) (hv : validInputs m descs order = true) :
+    ∀ a ∈ (round m offers descs order).accepts, ∃ o ∈ order, a.oid = o.oid ∧
+      sumOk o.res (a.launches.map (·.task)) = true := by
+  rw [validInputs_iff] at hv
+  intro a ha
+  obtain ⟨o, ho, hoid, hg, _, _, hsum, _⟩ := round_accepts m offers descs order hv.1 hv.2 a ha
+  refine ⟨o, ho, hoid, ?_⟩
+  obtain ⟨s1, s2⟩ := hsum hk
+  have e1 : ((a.launches.map (·.task)).map (·.cpu)) = a.launches.map (·.task.cpu) := by simp [List.map_map]
+  have e2 : ((a.launches.map (·.task)).map (·.mem)) = a.launches.map (·.task.mem) := by simp [List.map_map]
+  -- an offer without cpus or mem takes no task at all
+  have hnone : (o.res.cpu = none ∨ o.res.mem = none) → a.launches = [] := by
+    intro hn
+    cases hls : a.launches with
+    | nil => rfl
+    | cons l ls =>
+      obtain ⟨_, c, _, _, hcov, _⟩ := hg l (by rw [hls]; simp)
+      obtain ⟨cc, mm, _, hc, hm, _⟩ := covers_scalars o.res _ hcov
+      cases hn with
+      | inl h => rw [h] at hc; cases hc
+      | inr h => rw [h] at hm; cases hm
+  unfold sumOk
+  cases hc : o.res.cpu with
+  | none => simp [hnone (Or.inl hc)]
+  | some cc =>
+    cases hm : o.res.mem with
+    | none => simp [hnone (Or.inr hm)]
+    | some mm =>
+      rw [hc] at s1; rw [hm] at s2
+      simp only [avail, Option.getD_some, cpuSum, memSum] at s1 s2
+      simp only [e1, e2, Bool.and_eq_true, decide_eq_true_eq]
+      exact ⟨s1, s2⟩
+
+/-- The code as it is keeps the sum of what it requests on an offer within that offer. -/
+theorem C05_sum_within_offer_code : C05_sum_within_offer_full codeCfg :=
+  fun m hm offers descs order hv => C05_sum_within_offer_when_subtracted m (by rw [hm]; rfl) offers descs order hv
 
 def C05_witnessClass (cpu : Nat) (expr : String) (inb : List Bool) : Class :=
   { cts := [], cpu := cpu, mem := 0, portsExpr := expr.toList, inbound := inb }
@@ -273,15 +361,22 @@ def C05_witnessClass (cpu : Nat) (expr : String) (inb : List Bool) : Class :=
 def C05_witnessOffer : Offer :=
   { oid := 0, attrs := [("machine_id", "m0")], res := { cpu := some 4, mem := some 4096, ports := some [(9000, 9100), (30000, 30100)] } }
 
-/-- Finding `cpu_mem_not_subtracted`: an offer of 1 cpu takes two tasks of 0.75 cpu each. -/
-theorem C05_finding_cpu_mem_not_subtracted : ¬ C05_sum_within_offer_full := by
+/-- Finding `cpu_mem_not_subtracted` (the code as it WAS): an offer of 1 cpu takes two tasks of 0.75 cpu each. -/
+theorem C05_finding_cpu_mem_not_subtracted : ¬ C05_sum_within_offer_full legacyCfg := by
   intro h
-  have := h ⟨true, true⟩ [C05_witnessOffer]
+  have := h { satFixed := true, rngFixed := true, cfg := legacyCfg } rfl [C05_witnessOffer]
     [⟨0, [], some (C05_witnessClass 3 "" [])⟩, ⟨1, [], some (C05_witnessClass 3 "" [])⟩] [C05_witnessOffer] (by decide)
   revert this
   decide
 
-/-- When at most one task is launched per offer, the sum stays within the offer. -/
+/-- On the code as it is the second of those two tasks stays undeployed. -/
+theorem C05_second_task_waits_code :
+    let out := round { satFixed := true, rngFixed := true, cfg := codeCfg } [C05_witnessOffer]
+      [⟨0, [], some (C05_witnessClass 3 "" [])⟩, ⟨1, [], some (C05_witnessClass 3 "" [])⟩] [C05_witnessOffer]
+    out.accepts.map (fun a => a.launches.map (·.desc.id)) = [[1]] ∧ out.undeployed.map (·.id) = [0] ∧
+    out.crashed = false := by decide
+
+/-- Whatever the configuration: when at most one task is launched per offer, the sum stays within the offer. -/
 theorem C05_sum_within_offer_partial (m : Mode) (offers : List Offer) (descs : List Desc) (order : List Offer)
     (hv : validInputs m descs order = true)
     (hyp : ∀ a ∈ (round m offers descs order).accepts, a.launches.length ≤ 1) :
@@ -317,23 +412,61 @@ theorem C05_sum_within_offer_partial (m : Mode) (offers : List Offer) (descs : L
   | _ :: _ :: _, hlen => simp at hlen
 
 /-- FULL-STRENGTH: ALL ports claimed on one offer — static ranges included — are
-    from the offer and pairwise distinct — FALSE: static ranges are not taken out
-    of the offer before dynamic ports are drawn, nor between tasks. -/
-def C05_all_claims_distinct_full : Prop :=
-  ∀ (m : Mode) (offers : List Offer) (descs : List Desc) (order : List Offer), validInputs m descs order = true →
+    from the offer and pairwise distinct (the static ranges must be taken out of
+    the offer before dynamic ports are drawn, and stay out for later tasks). -/
+def C05_all_claims_distinct_full (k : Cfg) : Prop :=
+  ∀ (m : Mode), m.cfg = k →
+    ∀ (offers : List Offer) (descs : List Desc) (order : List Offer), validInputs m descs order = true →
     ∀ a ∈ (round m offers descs order).accepts, ∃ o ∈ order, a.oid = o.oid ∧
       claimsOk (o.res.ports.getD []) (a.launches.map (·.task)) = true
 
-/-- Finding `static_ports_not_reserved`: a template with static port 9000 and one
-    inbound TCP channel is given 9000 again as its dynamic port. -/
-theorem C05_finding_static_ports_not_reserved : ¬ C05_all_claims_distinct_full := by
+/-- Whenever the static ranges are claimed first, every port claimed on an offer
+    is from that offer and is claimed once: all offers, descriptors, lock orders. -/
+theorem C05_all_claims_distinct_when_reserved (m : Mode) (hk : m.cfg.staticReserved = true)
+    (offers : List Offer) (descs : List Desc) (order : List Offer) (hv : validInputs m descs order = true) :
+    ∀ a ∈ (round m offers descs order).accepts, ∃ o ∈ order, a.oid = o.oid ∧
+      claimsOk (o.res.ports.getD []) (a.launches.map (·.task)) = true := by
+  rw [validInputs_iff] at hv
+  intro a ha
+  obtain ⟨o, ho, hoid, _, _, _, _, hcl⟩ := round_accepts m offers descs order hv.1 hv.2 a ha
+  refine ⟨o, ho, hoid, ?_⟩
+  obtain ⟨c1, c2⟩ := hcl hk
+  have hflat : (a.launches.map (·.task)).flatMap Task.claims = claimsOf a.launches := by
+    simp [claimsOf, List.flatMap_map]
+  unfold claimsOk
+  simp only [hflat, Bool.and_eq_true, List.all_eq_true, nodupNat_iff]
+  refine ⟨?_, c1⟩
+  intro p hp
+  have := c2 p hp
+  cases hports : o.res.ports with
+  | none => rw [hports] at this; simp [omem] at this
+  | some ps => rw [hports] at this; simpa [omem] using this
+
+/-- The code as it is hands out every port of an offer at most once, static ranges included. -/
+theorem C05_all_claims_distinct_code : C05_all_claims_distinct_full codeCfg :=
+  fun m hm offers descs order hv => C05_all_claims_distinct_when_reserved m (by rw [hm]; rfl) offers descs order hv
+
+/-- Finding `static_ports_not_reserved` (the code as it WAS): a template with static
+    port 9000 and one inbound TCP channel is given 9000 again as its dynamic port. -/
+theorem C05_finding_static_ports_not_reserved : ¬ C05_all_claims_distinct_full legacyCfg := by
   intro h
-  have := h ⟨true, true⟩ [C05_witnessOffer] [⟨0, [], some (C05_witnessClass 1 "9000" [true])⟩] [C05_witnessOffer] (by decide)
+  have := h { satFixed := true, rngFixed := true, cfg := legacyCfg } rfl
+    [C05_witnessOffer] [⟨0, [], some (C05_witnessClass 1 "9000" [true])⟩] [C05_witnessOffer] (by decide)
   revert this
   decide
 
-/-- With one task per offer whose static ranges all end below the data-port
-    floor, every claimed port is from the offer and no port is claimed twice. -/
+/-- On the code as it is that task gets 9001, and a second task with the same
+    static port is not put on the same offer. -/
+theorem C05_static_port_kept_out_code :
+    let m : Mode := { satFixed := true, rngFixed := true, cfg := codeCfg }
+    let c := C05_witnessClass 1 "9000" [true]
+    (round m [C05_witnessOffer] [⟨0, [], some c⟩] [C05_witnessOffer]).accepts.map
+        (fun a => a.launches.map (·.task.dyn)) = [[[9001]]] ∧
+    let out := round m [C05_witnessOffer] [⟨0, [], some c⟩, ⟨1, [], some c⟩] [C05_witnessOffer]
+    out.accepts.map (fun a => a.launches.map (·.desc.id)) = [[1]] ∧ out.undeployed.map (·.id) = [0] := by decide
+
+/-- Whatever the configuration: with one task per offer whose static ranges all end below the
+    data-port floor, every claimed port is from the offer and no port is claimed twice. -/
 theorem C05_all_claims_distinct_partial (m : Mode) (offers : List Offer) (descs : List Desc) (order : List Offer)
     (hv : validInputs m descs order = true)
     (hyp1 : ∀ a ∈ (round m offers descs order).accepts, a.launches.length ≤ 1)
@@ -342,7 +475,7 @@ theorem C05_all_claims_distinct_partial (m : Mode) (offers : List Offer) (descs 
       claimsOk (o.res.ports.getD []) (a.launches.map (·.task)) = true := by
   rw [validInputs_iff] at hv
   intro a ha
-  obtain ⟨o, ho, hoid, hg, hnd, hfrom⟩ := round_accepts m offers descs order hv.1 hv.2 a ha
+  obtain ⟨o, ho, hoid, hg, hnd, hfrom, _⟩ := round_accepts m offers descs order hv.1 hv.2 a ha
   refine ⟨o, ho, hoid, ?_⟩
   have hlen := hyp1 a ha
   have hst := hyp2 a ha
@@ -405,23 +538,27 @@ theorem C05_all_claims_distinct_partial (m : Mode) (offers : List Offer) (descs 
 /-! ## the predicate the correspondence run evaluates
 
 `roundVerdict` (Spec/C05) is what the driver computes on what the IMPLEMENTATION
-did in a round. For the model, with both functions behaving as intended, the
-clauses without a recorded finding are theorems: -/
+did in a round. For the model of the code as it is (both functions behaving as
+intended, bookkeeping `codeCfg`) EVERY clause is a theorem — there is no excluded
+class left in a round: -/
 
-theorem C05_round_spec (m : Mode) (hs : m.satFixed = true) (hr : m.rngFixed = true)
+theorem C05_round_spec (m : Mode) (hs : m.satFixed = true) (hr : m.rngFixed = true) (hc : m.cfg = codeCfg)
     (offers : List Offer) (descs : List Desc) (order : List Offer)
     (hv : validInputs m descs order = true)
     (huniq : (offers.map (·.oid)).Nodup) (hsub : ∀ o ∈ order, o ∈ offers)
     (hparse : ∀ a ∈ (round m offers descs order).accepts, ∀ l ∈ a.launches, ∀ c, l.desc.cls = some c →
       (parseRanges true c.portsExpr).isSome = true) :
-    let v := roundVerdict offers (round m offers descs order)
-    v.constraintsOk = true ∧ v.templateOk = true ∧ v.drawn = true ∧ v.declines = true := by
+    (roundVerdict offers (round m offers descs order)).all = true := by
   have hv' := (validInputs_iff m descs order).1 hv
   have hacc := round_accepts m offers descs order hv'.1 hv'.2
   have hdec := round_declines m offers descs order hv'.1 hv'.2
   have hcon := C05_round_constraints m hs offers descs order hv
-  simp only [roundVerdict]
-  refine ⟨?_, ?_, ?_, ?_⟩
+  have hcrash := C05_round_never_crashes_code m hc offers descs order
+  have hsums := C05_sum_within_offer_code m hc offers descs order hv
+  have hclaims := C05_all_claims_distinct_code m hc offers descs order hv
+  simp only [RoundVerdict.all, roundVerdict, Bool.and_eq_true]
+  refine ⟨⟨⟨⟨⟨⟨?_, ?_⟩, ?_⟩, ?_⟩, ?_⟩, ?_⟩, ?_⟩
+  · simp [hcrash]
   · rw [List.all_eq_true]
     intro a ha
     obtain ⟨o, ho, hoid, hl⟩ := hcon a ha
@@ -430,7 +567,7 @@ theorem C05_round_spec (m : Mode) (hs : m.satFixed = true) (hr : m.rngFixed = tr
     exact fun l hlm c hc => hl l hlm c hc
   · rw [List.all_eq_true]
     intro a ha
-    obtain ⟨o, ho, hoid, hg, _, _⟩ := hacc a ha
+    obtain ⟨o, ho, hoid, hg, _⟩ := hacc a ha
     rw [hoid, findOffer_unique offers o (hsub o ho) huniq]
     simp only [List.all_eq_true]
     intro l hlm
@@ -452,7 +589,7 @@ theorem C05_round_spec (m : Mode) (hs : m.satFixed = true) (hr : m.rngFixed = tr
       rw [this]; exact hcov
   · rw [List.all_eq_true]
     intro a ha
-    obtain ⟨o, ho, hoid, hg, hnd, hfrom⟩ := hacc a ha
+    obtain ⟨o, ho, hoid, hg, hnd, hfrom, _⟩ := hacc a ha
     rw [hoid, findOffer_unique offers o (hsub o ho) huniq]
     unfold drawnOk
     have hflat : (a.launches.map (·.task)).flatMap Task.drawn = drawnOf a.launches := by
@@ -468,6 +605,16 @@ theorem C05_round_spec (m : Mode) (hs : m.satFixed = true) (hr : m.rngFixed = tr
     · intro l hl
       obtain ⟨_, c, _, _, _, _, _, _, _, hdyn, hctrl⟩ := hg l hl
       exact ⟨hdyn, hctrl⟩
+  · rw [List.all_eq_true]
+    intro a ha
+    obtain ⟨o, ho, hoid, h⟩ := hclaims a ha
+    rw [hoid, findOffer_unique offers o (hsub o ho) huniq]
+    exact h
+  · rw [List.all_eq_true]
+    intro a ha
+    obtain ⟨o, ho, hoid, h⟩ := hsums a ha
+    rw [hoid, findOffer_unique offers o (hsub o ho) huniq]
+    exact h
   · simp only [Bool.or_eq_true, Bool.and_eq_true, List.all_eq_true, List.any_eq_true, decide_eq_true_eq,
       Bool.not_eq_true', List.contains_eq_mem, List.isEmpty_iff]
     right
@@ -482,3 +629,11 @@ theorem C05_round_spec (m : Mode) (hs : m.satFixed = true) (hr : m.rngFixed = tr
       · right
         have := hdec.2 a ha hne
         simpa using this
+
+/-- Non-vacuity: the two-task witness round satisfies the hypotheses of `C05_round_spec`
+    and its verdict is evaluated to true by the kernel. -/
+example :
+    let m : Mode := { satFixed := true, rngFixed := true, cfg := codeCfg }
+    let ds : List Desc := [⟨0, [], some (C05_witnessClass 3 "9000" [true])⟩, ⟨1, [], some (C05_witnessClass 3 "9000" [true])⟩]
+    validInputs m ds [C05_witnessOffer] = true ∧
+    (roundVerdict [C05_witnessOffer] (round m [C05_witnessOffer] ds [C05_witnessOffer])).all = true := by decide
